@@ -160,6 +160,64 @@ def sig_of(v):
     return '%s' % v['clause']
 
 
+# hand-written packages whose injector signature is PINNED by an assignment compiled after generation (C10): identifiers that
+# only look like the standard context package, or like the error type
+PINNED = [
+    {'id': 'pinctxpkg',
+     'files': {'internal/context/context.go': 'package context\n\ntype Context struct{ Tenant string }\n',
+               'k.go': ('package main\n\nimport (\n\t"github.com/mazrean/kessoku"\n\tappctx "scratch/pinned/pinctxpkg/internal/context"\n)\n\n'
+                        'type Repo struct{}\n\ntype Handler struct{}\n\nfunc NewRepo() *Repo { return &Repo{} }\n\n'
+                        'func NewHandler(c appctx.Context, r *Repo) *Handler { return &Handler{} }\n\n'
+                        'var _ = kessoku.Inject[*Handler]("InitHandler", kessoku.Async(kessoku.Provide(NewRepo)), kessoku.Provide(NewHandler))\n\n'
+                        'var _ = kessoku.Inject[*Handler]("InitHandlerSync", kessoku.Provide(NewRepo), kessoku.Provide(NewHandler))\n\nfunc main() {}\n')},
+     'pin': ('package main\n\nimport (\n\t"context"\n\tappctx "scratch/pinned/pinctxpkg/internal/context"\n)\n\n'
+             'var _ func(context.Context, appctx.Context) *Handler = InitHandler\n\nvar _ func(appctx.Context) *Handler = InitHandlerSync\n')},
+    {'id': 'pinctxtype',
+     'files': {'k.go': ('package main\n\nimport "github.com/mazrean/kessoku"\n\ntype Context struct{ Tenant string }\n\ntype Repo struct{}\n\ntype Handler struct{}\n\n'
+                        'func NewRepo() (*Repo, error) { return &Repo{}, nil }\n\nfunc NewHandler(c Context, r *Repo) *Handler { return &Handler{} }\n\n'
+                        'var _ = kessoku.Inject[*Handler]("InitHandler", kessoku.Async(kessoku.Provide(NewRepo)), kessoku.Provide(NewHandler))\n\n'
+                        'var _ = kessoku.Inject[*Handler]("InitHandlerSync", kessoku.Provide(NewRepo), kessoku.Provide(NewHandler))\n\nfunc main() {}\n')},
+     'pin': ('package main\n\nimport "context"\n\nvar _ func(context.Context, Context) (*Handler, error) = InitHandler\n\n'
+             'var _ func(Context) (*Handler, error) = InitHandlerSync\n')},
+    {'id': 'pinerrtype',
+     'files': {'k.go': ('package main\n\nimport "github.com/mazrean/kessoku"\n\ntype Problem struct{}\n\nfunc (*Problem) Error() string { return "p" }\n\n'
+                        'type Repo struct{}\n\ntype Handler struct{}\n\nfunc NewRepo() (*Repo, *Problem) { return &Repo{}, nil }\n\n'
+                        'func NewHandler(r *Repo, p *Problem) *Handler { return &Handler{} }\n\n'
+                        'var _ = kessoku.Inject[*Handler]("InitHandler", kessoku.Provide(NewRepo), kessoku.Provide(NewHandler))\n\nfunc main() {}\n')},
+     'pin': 'package main\n\nvar _ func() *Handler = InitHandler\n'},
+]
+
+
+def pinned_signatures(w, cli, rep):
+    """-> number of pinned packages checked"""
+    root = w.path('pinned-root')
+    os.makedirs(root, exist_ok=True)
+    open(os.path.join(root, 'go.mod'), 'w').write(declgen.GOMOD % pl.REPO)
+    shutil.copy(os.path.join(pl.REPO, 'go.sum'), os.path.join(root, 'go.sum'))
+    n = 0
+    for c in PINNED:
+        d = os.path.join(root, 'pinned', c['id'])
+        for fn, src in c['files'].items():
+            os.makedirs(os.path.dirname(os.path.join(d, fn)), exist_ok=True)
+            open(os.path.join(d, fn), 'w').write(src)
+        p0 = pl.run(['go', 'build', '-o', os.devnull, '.'], cwd=d, env=pl.go_env(), timeout=600)
+        if p0.returncode != 0:
+            raise pl.ExitTwo('pinned package %s does not compile on its own: %s' % (c['id'], p0.stderr[-600:]))
+        rc, so, se = pl.run_generator(cli, d)
+        if rc != 0:
+            rep.found('C10.pinned|refused|%s' % c['id'], 'valid hand-written package %s refused: %s' % (c['id'], se[-300:]), {'case': c})
+            continue
+        open(os.path.join(d, 'zz_pin.go'), 'w').write(c['pin'])
+        p1 = pl.run(['go', 'build', '-o', os.devnull, '.'], cwd=d, env=pl.go_env(), timeout=600)
+        n += 1
+        if p1.returncode != 0:
+            diag = re.sub(r'[\w/.-]*/', '', '\n'.join(p1.stderr.strip().splitlines()[1:3]))[:300]
+            gen = open(os.path.join(d, 'k_band.go')).read() if os.path.exists(os.path.join(d, 'k_band.go')) else ''
+            rep.found('C10.pinned|%s' % c['id'], 'the injector generated for the hand-written package %s does not have the pinned signature: %s' % (c['id'], diag),
+                      {'case': c, 'generated': gen[:4000], 'diagnostics': p1.stderr[-800:]})
+    return n
+
+
 def main_c09_c10(prop, tier):
     sd = seed()
     rep = Report(prop, tier, 'model_checking')
@@ -261,6 +319,7 @@ def main_c09_c10(prop, tier):
                 fdecls = [d for grp, _ in fgroups for d in grp]
                 decls = decls + fdecls
                 byid.update({d['id']: d for d in fdecls})
+            npinned = pinned_signatures(w, cli, rep) if prop == 'C10' else 0
             vj, st = tlc_gen(w, decls, records)
             # the oracle itself: Decl.tla against the Python reference on this very batch
             chk = decl_crosscheck(w, decls)
@@ -295,7 +354,7 @@ def main_c09_c10(prop, tier):
                 'states': st, 'transitions': st, 'traces_validated_against_impl': len(records),
                 'samples': [{'declaration': ds.tla_decl(decls[-1]), 'planted': decls[-1].get('planted'),
                              'record': {k: v for k, v in records[-1].items()}}],
-                'declarations': len(decls), 'unsatisfiable_planted': nbad, 'valid': len(decls) - nbad,
+                'declarations': len(decls), 'unsatisfiable_planted': nbad, 'valid': len(decls) - nbad, 'pinned_signature_packages': npinned,
                 'with_preexisting_output': len(pre), 'kinds': dict(kinds),
                 'oracle_crosscheck_declarations': chk,
                 'evaluations': len(records), 'distinct_nontrivial': nbad,
